@@ -104,6 +104,31 @@ def extra_scenarios(tier):
             yield {"net": "N2", "sessions": ss, "sched": opt, "period": 5, "two_phase": 4, "edit": 9.7}
 
 
+def three_scenarios(tier, nets=("N2", "N5", "N7", "N10")):
+    """three overlapping sessions (one per station, arrivals 0/1/2 so that no priority key ties, every combination of kinds): the smallest scope in which a
+    session that drops out of a round can disturb the order of the two behind it"""
+    for netname in nets:
+        stations = list(S.NETS[netname]["stations"])
+        if len(stations) < 3:
+            continue
+        for kinds in itertools.product(KINDS, repeat=3):
+            ss = [dict(sess(st, i, 5 - i, kind, 4 * i), sid="ev%d" % i) for i, (st, kind) in enumerate(zip(stations[:3], kinds))]
+            for j, s in enumerate(ss):
+                s["ed"] = s["d"] + (1, 2, 4)[j % 3]
+            for algo in ("rr", "greedy"):
+                for sort in (SORTS if tier == "thorough" else ("fcfs", "lcfs", "lrpt")):
+                    yield {"net": netname, "sessions": ss, "sched": {"kind": algo, "sort": sort, "est": False, "unint": False, "inc": 1}, "period": 5}
+
+
+def edit_scenarios(tier, unint_values=(False, True)):
+    """two run() stages of one simulator; the limit of the last-added constraint is changed (same name) in between"""
+    for st2, kind2 in itertools.product(("PS-B", "PS-C"), ("fast", "slow")):
+        for edit in (9.7, 47.3):  # tightened / relaxed
+            ss = [dict(sess("PS-A", 0, 2, "fast", 0), sid="ev0"), dict(sess(st2, 4, 3, kind2, 1), sid="ev1"), dict(sess("PS-A", 4, 2, "fast", 2), sid="ev2")]
+            for opt in options(tier, unint_values):
+                yield {"net": "N2", "sessions": ss, "sched": opt, "period": 5, "two_phase": 4, "edit": edit}
+
+
 def inc_scenarios(tier, nets=("N2", "N5")):
     """round robin with other continuous increments than 1 A: one that divides the EVSE limits (0.5) and one that does
     not (2.5; the top of the grid is then below the limit)"""
